@@ -368,7 +368,7 @@ func (g *generator) declareNode(v cue.Value) (ast.Type, error) {
 
 	switch v.IncompleteKind() {
 	case cue.TopKind:
-		return ast.Any(), nil
+		return ast.Any(ast.Default(defVal)), nil
 	case cue.NullKind:
 		return ast.Null(), nil
 	case cue.BoolKind:
